@@ -71,13 +71,19 @@ fn rejected_family(id: TransactionId, fp: bool) -> Vec<(&'static str, Vec<u8>)> 
     let mut a = vec![Software::new("x").unwrap().into()]; a.extend(tail.clone());
     v.push(("unknown transaction", encode(MessageClass::SuccessResponse, other, a.clone())));
     v.push(("request class", encode(MessageClass::Request, id, a.clone())));
+    // indications that reuse the transaction id of the outstanding request: whatever becomes of them, they are not a verdict
+    // about that request (with a mechanism they are refused; the request must still end as it would have)
+    let mut ai: Vec<StunAttribute> = vec![Software::new("i").unwrap().into()]; ai.extend(tail.clone());
+    v.push(("indication without integrity, id of the outstanding request", encode(MessageClass::Indication, id, ai)));
+    let mut aw: Vec<StunAttribute> = vec![Software::new("i").unwrap().into(), MessageIntegrity::new(key("other")).into()]; aw.extend(tail.clone());
+    v.push(("indication with wrong-key integrity, id of the outstanding request", encode(MessageClass::Indication, id, aw)));
     let full = encode(MessageClass::SuccessResponse, id, a);
     v.push(("truncated", full[..full.len() - 3].to_vec()));
     v.push(("garbage", vec![0xFFu8; 40]));
     v
 }
 
-fn scenario(mech: bool, fp: bool, inject: Option<usize>) -> Result<(Vec<String>, Option<&'static str>), String> {
+fn scenario(mech: bool, fp: bool, inject: Option<usize>, answer: bool) -> Result<(Vec<String>, Option<&'static str>), String> {
     let mut c = client(mech, fp);
     let t0 = Instant::now();
     let mut log = Vec::new();
@@ -104,9 +110,11 @@ fn scenario(mech: bool, fp: bool, inject: Option<usize>) -> Result<(Vec<String>,
     let mut attrs: Vec<StunAttribute> = vec![Software::new("server").unwrap().into()];
     if mech { attrs.push(MessageIntegritySha256::new(key(PASS)).into()); }
     if fp { attrs.push(Fingerprint::default().into()); }
-    let r = c.on_buffer_recv(&encode(MessageClass::SuccessResponse, id1, attrs), t0 + ms(30));
-    log.push(format!("genuine response: {:?}", r));
-    log.extend(observe(&mut c));
+    if answer {
+        let r = c.on_buffer_recv(&encode(MessageClass::SuccessResponse, id1, attrs), t0 + ms(30));
+        log.push(format!("genuine response: {:?}", r));
+        log.extend(observe(&mut c));
+    }
     c.send_request(BINDING, StunAttributes::default(), vec![0; 512], t0 + ms(40)).map_err(|e| format!("third request: {:?}", e))?;
     log.extend(observe(&mut c));
     for t in [540u64, 1540, 60_000] { c.on_timeout(t0 + ms(t)); log.extend(observe(&mut c)); }
@@ -115,24 +123,27 @@ fn scenario(mech: bool, fp: bool, inject: Option<usize>) -> Result<(Vec<String>,
 
 fn main() {
     let mut n = 0; let mut bad = 0;
-    for mech in [false, true] { for fp in [false, true] {
-        let base = match scenario(mech, fp, None) { Ok(x) => x.0, Err(e) => { println!("WITNESS: baseline scenario failed: {}", e); std::process::exit(1) } };
-        let fam = rejected_family(TransactionId::from([0u8; 12]), fp).len();
-        for k in 0..fam {
-            match scenario(mech, fp, Some(k)) {
+    for answer in [true, false] { for mech in [false, true] { for fp in [false, true] {
+        let base = match scenario(mech, fp, None, answer) { Ok(x) => x.0, Err(e) => { println!("WITNESS: baseline scenario failed: {}", e); std::process::exit(1) } };
+        let fam = rejected_family(TransactionId::from([0u8; 12]), fp);
+        for k in 0..fam.len() {
+            // when the first request is left unanswered (it runs into its final time-out) only indications are injected: a
+            // rejected *response* may legitimately turn that time-out into ProtectionViolated (C07)
+            if !answer && !fam[k].0.contains("indication") { continue; }
+            match scenario(mech, fp, Some(k), answer) {
                 Err(e) => { println!("WITNESS: mechanism={} fingerprint={}: {}", mech, fp, e); bad += 1; }
                 Ok((log, Some(name))) => {
                     n += 1;
                     if log != base {
                         let d = log.iter().zip(base.iter()).position(|(a, b)| a != b).unwrap_or(log.len().min(base.len()));
-                        println!("WITNESS: mechanism={} fingerprint={}: after the rejected buffer '{}' the client behaves differently at step {}: {:?} instead of {:?}",
-                                 mech, fp, name, d, log.get(d), base.get(d));
+                        println!("WITNESS: mechanism={} fingerprint={} first request {}: after the rejected buffer '{}' the client behaves differently at step {}: {:?} instead of {:?}",
+                                 mech, fp, if answer { "answered" } else { "left to time out" }, name, d, log.get(d), base.get(d));
                         bad += 1;
                     }
                 }
                 Ok((_, None)) => {}
             }
         }
-    } }
+    } } }
     if bad == 0 { println!("ok: {} rejected buffers left no trace", n); } else { std::process::exit(1); }
 }
